@@ -24,7 +24,9 @@ def spec(name, layout, queue, seq_len, dst1, dst2, **kw):
 def specs(tier):
     if tier == 'quick':
         return [spec('c15-noq-D3', 'D3', False, 3, 'development/4.3',
-                     'development/5.1')]
+                     'development/5.1',
+                     ops=['push', 'rebase', 'eval_pr', 'merge_pr2',
+                          'manual'])]
     return [spec('c15-noq-D3', 'D3', False, 3, 'development/4.3',
                  'development/5.1'),
             spec('c15-q-D3', 'D3', True, 3, 'development/4.3',
